@@ -84,8 +84,28 @@ func (fv *FV) ghostAssignedIn(ord int) map[string]bool {
 		if g.Kind != "assign" {
 			continue
 		}
-		// conservatively: every ghost local assigned anywhere except at entry is havocked at every loop head
-		if g.Anchor == "entry" {
+		// a ghost assignment is inside loop `ord` if it is anchored at that loop (or at a loop nested in it), or at a
+		// statement inside it
+		inside := false
+		if g.Anchor == "entry" || g.Anchor == "exit" {
+			continue
+		}
+		var k int
+		if n, _ := fmt.Sscanf(g.Anchor, "loop %d", &k); n == 1 {
+			if k == ord {
+				inside = true
+			}
+			for _, outer := range fv.loopNest[k] {
+				if outer == ord {
+					inside = true
+				}
+			}
+		} else if m := fv.ghostLoops[g]; m != nil {
+			inside = m[ord]
+		} else {
+			inside = true
+		}
+		if !inside {
 			continue
 		}
 		if id, ok := g.LHS.(*SIdent); ok {
